@@ -32,7 +32,7 @@ def parse_model_cases(out):
             if line == '== end': cur = None
             else:
                 cur = dict(status=None, delivered=[], csv={0: [], 1: [], 2: [], 3: []}, csvtotals=None, unspent=[], unspenttotals=None, balance=[],
-                           opret=[], stat={}, stattype=[], open=[], limit={}, fname={})
+                           opret=[], stat={}, stattype=[], open=[], limit={}, fname={}, header={})
                 res[line[3:]] = cur
             continue
         if cur is None or not line: continue
@@ -50,6 +50,7 @@ def parse_model_cases(out):
         elif k == 'open': t = rest.split(' '); cur['open'].append((int(t[0]), [int(x) for x in t[1].split(',') if x] if len(t) > 1 else []))
         elif k == 'limit': t = rest.split(); cur['limit'][(t[0], int(t[1]))] = t[2:]
         elif k == 'fname': t = rest.split(); cur['fname'][(t[0], int(t[1]))] = (t[2], t[3])
+        elif k == 'header': t = rest.split(' ', 1); cur['header'][t[0]] = t[1] if len(t) > 1 else ''
     return res
 
 def run_model(tools, cases, want, shards=16):
@@ -81,8 +82,20 @@ def model_lines(tools, lines, shards=16):
         for i, out in enumerate(ex.map(work, chunks)): res[i::n] = out
     return res
 
+class HooksUnavailable(Exception):
+    pass
+
+def hooks_ok(ck=None):
+    """False when the guarded hook code did not compile against the current tree (the plain binary is used then): in-process correspondences are skipped and reported"""
+    if build.HOOKS_OK: return True
+    if ck is not None:
+        ck.extra['hooks'] = 'guarded hook code does not compile against this tree; in-process correspondences skipped, black-box correspondences only: ' + build.HOOKS_ERROR[-400:]
+        ck.count('in-process correspondences skipped (hook build failed)')
+    return False
+
 def hook_lines(tools, hook, lines, release=False, shards=16):
     if not lines: return []
+    if not build.HOOKS_OK: raise HooksUnavailable(hook)
     from concurrent.futures import ThreadPoolExecutor
     binp = tools.bin_release if release else tools.bin
     n = max(1, min(shards, (len(lines) + 199) // 200))
@@ -194,9 +207,11 @@ def expect_status(m):
 def cmp_status(r, m):
     ec, eh, ek = expect_status(m)
     diffs = []
-    if exit_class(r) != ec: diffs.append('exit class impl=%s (rc %s) model=%s' % (exit_class(r), r.rc, ec))
-    if eh is not None and (r.error_height != eh or r.error_kind != ek):
-        diffs.append('failing height/kind impl=%s/%s model=%s/%s' % (r.error_height, r.error_kind, eh, ek))
+    # property-level observables only: success vs failure (a panic, an abort and exit(1) are all "non-zero"); the failing height where a property asks for it
+    # (input faults, C10: "reports the failing height"); which of the --verify conditions is reported first, and with which words, is not specified by any property
+    if (exit_class(r) == 'ok') != (ec == 'ok'): diffs.append('exit status impl=%s (rc %s) model=%s' % (exit_class(r), r.rc, ec))
+    if eh is not None and ek in ('nofile', 'read') and r.error_height != eh:
+        diffs.append('failing height impl=%s model=%s (%s)' % (r.error_height, eh, ek))
     return diffs
 
 CSV_STEMS = ['blocks', 'transactions', 'tx_in', 'tx_out']
@@ -247,8 +262,8 @@ def cmp_rows_file(r, m, stem, header, mrows, totals_key=None):
         if tot != m[totals_key]: d.append('totals impl=%s model=%s' % (tot, m[totals_key]))
     return d
 
-def cmp_unspent(r, m, case): return cmp_rows_file(r, m, 'unspent', 'txid;indexOut;height;value;address', m['unspent'], 'unspenttotals')
-def cmp_balances(r, m, case): return cmp_rows_file(r, m, 'balances', 'address;balance', m['balance'])
+def cmp_unspent(r, m, case): return cmp_rows_file(r, m, 'unspent', m['header'].get('unspent', 'txid;indexOut;height;value;address'), m['unspent'], 'unspenttotals')
+def cmp_balances(r, m, case): return cmp_rows_file(r, m, 'balances', m['header'].get('balances', 'address;balance'), m['balance'])
 
 OPRET_RE = re.compile(rb'(?m)^height: (\d+) +txid: ([0-9a-f]{64})    data: ')
 LOG_RE = re.compile(rb'\n\[\d\d:\d\d:\d\d\] ')
